@@ -15,8 +15,8 @@ CLAIMS = {
          "Structural necessary conditions decided from the SSA of package board and the whole-program writer sets: only addPiece/removePiece/FEN parser store the three placement encodings and they do so in lock-step; every placement delta, side-to-move flip, castling-right change and en-passant change is mirrored by the matching Zobrist xor with agreeing indices; calculateHash includes exactly the same components under the same conventions. A violation implies a move sequence after which Hash() differs from recomputation or the encodings disagree. Value equality for concrete sequences is not decided.",
          "Trusts go/ssa; field effects are attributed by declared struct type; xor algebra (order independence) is not mechanised.",
          "DESIGN.md §3 C04"),
- "C17": ("transitive effect analysis (reads/writes/globals/nondeterminism) over the VTA call-graph closure of every eval.Eval instance",
-         "The independence sentence of the property is decided completely: the closure of Eval reads only Pieces, Colors, SquaresToPiece, STM, FiftyCnt of the board, stores to no board field, coefficient or package variable, reads only init-time-immutable tables and reaches no nondeterminism source. Colour symmetry is decided only where the two colours are spelled out side by side (sibling mirror rule); symmetry of shared helper code is not decided.",
+ "C17": ("transitive effect analysis (reads/writes/globals/nondeterminism) over the VTA call-graph closure of every eval.Eval instance; AST mirror-sibling comparison; def-use analysis of table indexes (flip on one colour only) and of bit scans (order independence)",
+         "The independence sentence of the property is decided completely: the closure of Eval reads only Pieces, Colors, SquaresToPiece, STM, FiftyCnt of the board, stores to no board field, coefficient or package variable, reads only init-time-immutable tables and reaches no nondeterminism source. Colour symmetry is decided where the two colours are spelled out side by side (sibling mirror rule), for perspective flips (every coefficient-table index computed from a square or rank is flipped for exactly one colour) and for bit-scan order (LowestSet only in strip-until-empty loops or on single-bit sets); symmetry of the remaining shared helper arithmetic is not decided.",
          "Trusts go/ssa + VTA (over-approximate dynamic calls); no reflect/unsafe in the closure (checked).",
          "DESIGN.md §3 C17"),
  "C03": ("effect sets (make/undo write-set mirror, single writer of the hash history) + constant evaluation of the Reverse token layout + reaching-store analysis (save-before-clobber) + getter/setter sibling pairing + post-dominance (one push/pop per call) + PAIR typestate at consumers",
@@ -51,15 +51,15 @@ CLAIMS = {
          "Structural necessary conditions: bucket layout arithmetic is consistent; LookUp and Insert address bucket and signature identically and the hit returns the matching lane's entry; Insert's and Value's mate re-basing are exact mirrors with the same thresholds and strictness; the lane cleared, the lane set and the entry overwritten are the same lane; keep-deeper and keep-move fire only under signature match with their stated conditions; only Insert/Clear/Resize write table state and callers only read the probed entry; Resize never produces an empty or misaligned table. Replacement-policy effects over operation sequences are not decided.",
          "Trusts go/ssa and types.SizesFor(gc, amd64); zero-signature keys excluded (as the property does).",
          "DESIGN.md §3 C15"),
- "C10": ("loop-shape recognition over SSA (start offset and stride of the history scan as constants), counting-discipline dominance checks, plus re-evaluation of the history/hash rules the count rests on",
+ "C10": ("loop-shape recognition over SSA (start offset and stride of the history scan as linear forms in len), per-path analysis of one scan iteration (increment exactly on equal-hash paths, stop only when the count is known >= 3, continue only when known < 3), plus re-evaluation of the history/hash rules the count rests on",
          "Only the scan-coverage clause is decided: the repetition scan visits every history offset at which the position can recur (5,7,9,... from the end) and never the current entry, runs to index 0, starts counting at 1 and returns at 3; and the history it scans is pushed/popped once per make/undo, hashed consistently (C03.R4, C04.R1-R4, C02.R2, C02.R5 re-evaluated). The count for concrete histories and hash collisions are not decided.",
          "Equal hashes are taken to mean equal positions; trusts go/ssa.",
          "DESIGN.md §3 C10"),
- "C09": ("piece-attack pairing by def-use slices, recognition of pinned-decision phis and their two ray tests, dominance of call-site preconditions, occupancy-argument analysis of king-flight tests",
-         "Structural necessary conditions: every attack pattern in IsCheckmate/IsStalemate/Attackers/Block/IsAttacked is paired with the piece kinds and pawn colour geometry dictates; every pinned decision is taken from a diagonal AND a lateral test on the same simulated occupancy from the king's square against the opponent; IsCheckmate/IsStalemate are called only with their in-check precondition established; king flights are tested with the king removed from the occupancy. Agreement of the case analysis with move generation for concrete positions is not decided.",
+ "C09": ("piece-attack pairing by def-use slices, pairing of diagonal/lateral king-ray lookups on the same occupancy (helpers followed with parameters bound to call sites), exclusion-set analysis for simulated captures, mask analysis of two-step pawn pushes, dominance of call-site preconditions, occupancy-argument analysis of king-flight tests",
+         "Structural necessary conditions: every attack pattern in IsCheckmate/IsStalemate/Attackers/Block/IsAttacked is paired with the piece kinds and pawn colour geometry dictates; every king-exposure decision is taken from a diagonal AND a lateral test on the same simulated occupancy from the king's square against the opponent; where the simulated move is a capture the captured piece is excluded from the pin test; a double pawn step is tested over the full occupancy; IsCheckmate/IsStalemate are called only with their in-check precondition established; king flights are tested with the king removed from the occupancy. Agreement of the case analysis with move generation for concrete positions is not decided.",
          "Trusts go/ssa.",
          "DESIGN.md §3 C09, §3.0"),
- "C07": ("dominance and reachability over SSA (entry clear, splice after undo inside the window, adoption and report from the same buffer with no search in between), shape check of pv.insert, loop-structure check of the report",
+ "C07": ("dominance and reachability over SSA (entry clear, splice after undo inside the window), path enumeration from the root search call with phis and branch conditions resolved per path (what move/ponder hold, known line length and window relation at adoption and report), shape check of pv.insert, loop-structure check of the report",
          "Structural necessary conditions: each node clears its PV slot first; a child's line is spliced only behind the move that was just searched and undone, only when its value is strictly inside the window; insert copies the child's line with its length; the adopted move, the ponder move and the printed variation come from the same buffer with no search in between, only after the aspiration loop succeeded; ponder is cleared for lines shorter than two; one report per depth, depths increasing. Legality of the PV moves themselves (run-time table contents) is not decided.",
          "Trusts go/ssa; bufIx arithmetic is not decided.",
          "DESIGN.md §3 C07"),
